@@ -327,7 +327,7 @@ def content_cell(ctx, spy, cell, sample, fmt_for_unsupported=None):
             variants += [("str-path", dict(fmt=f, path_as_str=True))]
         if e == "dump" and k == "path":
             variants += [("str-path", dict(fmt=f, path_as_str=True)), ("mode-w", dict(fmt=f, mode="w")),
-                         ("append-existing", dict(fmt=f, mode="a-existing"))]
+                         ("no-file-yet", dict(fmt=f, mode="fresh"))]
         if e in ("dump", "dumps") and hasattr(sample, "objs_plain"):
             variants += [("ascii-only-object", dict(fmt=f, plain=True))]
     done = 0
@@ -841,6 +841,69 @@ def path_spelling_cases(ctx, spy, sample):
             os.environ["HOME"] = old_home
 
 
+def failing_dump_cases(ctx, spy, sample):
+    """A DUMP THAT FAILS leaves the caller's file alone: a target path that already holds earlier records (the default
+    mode appends), then a dump that raises — for every failure class the entry point can meet.  Afterwards the file
+    exists and holds the earlier records followed by exactly what the class-level dump wrote before it raised (nothing,
+    when the failure comes before the codec is reached); the exception is the class method's / ValueError."""
+    import molli as ml
+
+    work = sample.workdir / "failing"
+    work.mkdir(exist_ok=True)
+    earlier = "EARLIER RECORD 1\nEARLIER RECORD 2\n"
+    mol, ens = sample.objs["molecule"], sample.objs["ensemble"]
+
+    class Halfway:
+        """an object whose class-level dump writes a part and then fails"""
+        name = "halfway"
+
+        def dump_xyz(self, stream, **kw):
+            stream.write("2\nhalfway\nC 0.0 0.0 0.0\n")
+            raise RuntimeError("lost the second atom")
+
+        dump_mol2 = dump_xyz
+
+    plans = []      # (what, target name, call kwargs, object, expected exception, class-level partial text)
+    for fs in [L.UNSUPPORTED_TABLE_FMT, "zzz", "cdxml", "XYZ"]:
+        plans.append((f"unsupported format {fs!r}", "records.xyz", dict(fmt=fs), mol, "ValueError", ""))
+    plans.append(("format deduced from an unsupported suffix", "records.pdb", dict(fmt=None), mol, "ValueError", ""))
+    plans.append(("format deduced from a missing suffix", "records", dict(fmt=None), mol, "ValueError", ""))
+    plans.append(("unknown writer", "records.xyz", dict(fmt="xyz", writer="nope"), mol, "ValueError", ""))
+    plans.append(("a keyword the class-level dump does not accept", "records.xyz", dict(fmt="xyz", bogus=1), mol, "TypeError", ""))
+    plans.append(("write_header for an ensemble (its dump_xyz takes no such keyword)", "records.xyz", dict(fmt="xyz", write_header=False), ens, "TypeError", ""))
+    plans.append(("an object without a codec", "records.mol2", dict(fmt="mol2"), [], "AttributeError", ""))
+    plans.append(("a class-level dump that fails half-way", "records.xyz", dict(fmt="xyz"), Halfway(), "RuntimeError", "2\nhalfway\nC 0.0 0.0 0.0\n"))
+    plans.append(("a class-level dump that fails half-way (mol2)", "records.mol2", dict(fmt=None), Halfway(), "RuntimeError", "2\nhalfway\nC 0.0 0.0 0.0\n"))
+    for what, tname, kw, obj, want_exc, partial in plans:
+        for as_str in (False, True):
+            p = work / tname
+            p.write_text(earlier)
+            kw2 = dict(kw)
+            fmt = kw2.pop("fmt")
+            try:
+                ml.dump(obj, str(p) if as_str else p, fmt, **kw2)
+                got_exc = None
+            except Exception as ex:  # noqa: BLE001
+                got_exc = type(ex).__name__
+            after = p.read_text() if p.exists() else None
+            ctx.case(f"failing-dump:{sample.tag}:{what}:{as_str}", nontrivial=True)
+            ctx.count("failing-dumps")
+            problem = None
+            if after is None:
+                problem = "the file with the earlier records is gone"
+            elif after != earlier + partial:
+                problem = f"the file holds {after[:80]!r}... instead of the earlier records" + (" followed by what the class method wrote" if partial else "")
+            elif got_exc != want_exc:
+                problem = f"raised {got_exc}, expected {want_exc}"
+            if problem:
+                cell = ("dump", "unsupported" if want_exc == "ValueError" else "xyz", "path", "molecule", "notgiven", "explicitMatching")
+                ctx.violation("C09:dump:earlier-records-damaged-by-a-failing-dump" if after != earlier + partial else "C09:dump:failure-class",
+                              f"ml.dump to a path holding earlier records, {what}: {problem}",
+                              {"failing_dump": {"what": what, "target": tname, "fmt": fmt, "kwargs": {k: repr(v) for k, v in kw2.items()},
+                                                "object": type(obj).__name__, "as_str": as_str}})
+                break
+
+
 def unsupported_cases(ctx, spy, sample):
     """every unsupported format string is a ValueError, nothing is written, the caller's stream stays open"""
     import molli as ml
@@ -867,8 +930,9 @@ def unsupported_cases(ctx, spy, sample):
                         report(ctx, f"C09:{e}:codec-reached-for-unsupported-format", tag, obs["calls"][0]["meth"], fs)
                     if obs["caller_stream"] is not None and (obs["caller_stream"].closed or obs["written"] != obs["before"]):
                         report(ctx, "C09:dump:stream-ownership", tag, "caller's stream closed or written to", fs)
-                    if obs["target_path"] is not None and obs["written"]:
-                        report(ctx, "C09:dump:text-written-for-unsupported-format", tag, "the target file received text", fs)
+                    if obs["target_path"] is not None and obs["written"] != obs["before"]:
+                        report(ctx, "C09:dump:text-written-for-unsupported-format", tag,
+                               "the target file lost its earlier records" if not (obs["written"] or "").startswith(obs["before"]) else "the target file received text", fs)
     # format deduced from a suffix that names no supported format / no suffix at all
     for e in ("load", "load_all"):
         for suffix in (".pdb", "", ".XYZ"):
@@ -976,6 +1040,7 @@ def run(ctx):
             if i < 3 or (not ctx.quick() and i % 3 == 0):
                 sink_cases(ctx, spy, s)
                 path_spelling_cases(ctx, spy, s)
+                failing_dump_cases(ctx, spy, s)
             if i == len(samples) - 1:
                 # ---------------- (2b) sequences of calls: hidden state between calls ----------------
                 contents = {"xyz": [], "mol2": [], "cdxml": []}
@@ -1007,6 +1072,20 @@ def replay(ctx, path):
     obj = json.loads(path.read_text())
     print(json.dumps({k: v for k, v in obj.items() if k != "replay"}, indent=1)[:1500])
     r = obj.get("replay") or {}
+    if "failing_dump" in r:
+        files = {"xyz": REPO / "molli/files/pentane_confs.xyz", "mol2": REPO / "molli/files/pentane_confs.mol2",
+                 "cdxml": REPO / "molli/files/parser_demo.cdxml"}
+        s_ = make_sample(files, ctx.scratch, "replay", None)
+        print("re-running the failing dumps on a file that holds earlier records; looking for:", r["failing_dump"]["what"])
+
+        class _P:
+            def case(self, *a, **k): pass
+            def count(self, *a, **k): pass
+            def violation(self, kind, what, rp): print("  VIOLATION", kind, "-", what[:400])
+
+        with L.Spy() as spy:
+            failing_dump_cases(_P(), spy, s_)
+        return 0
     if "spelling" in r:
         import molli as ml
 
@@ -1086,7 +1165,7 @@ def replay(ctx, path):
     with L.Spy() as spy, warnings.catch_warnings():
         warnings.simplefilter("ignore")
         obs = L.call_entry(spy, cell, s, fmt, path_as_str=(v == "str-path"),
-                           mode={"mode-w": "w", "append-existing": "a-existing"}.get(v))
+                           mode={"mode-w": "w", "append-existing": "a-existing", "no-file-yet": "fresh"}.get(v))
         act = L.classify(cell, obs)
     print("observed:", L.action_key(act))
     print("   value:", exc_name(obs["exc"]) or type(obs["ret"]).__name__, "| names:", L.names_of(obs["ret"])[:3] if obs["exc"] is None else "-")
